@@ -273,6 +273,9 @@ P["C11"]["runs"].append(fetchTwice("fetch", QT))
 P["C11"]["assumptions"] = TIERA_ASSUME + TIERB_ASSUME
 P["C11"]["bounds"] += "; Tier B: real conditions of 6 templates on symbolic facts, FetchMatchingRules called twice on one instance and data context with host-side fact changes in between (result = exactly the rules whose condition holds now)"
 P["C08"]["runs"].append(fetchTwice("fetch", T))
+P["C08"]["runs"].append({"name": "tierB-clock-reuse", "pkgdir": "zztier", "harness": TIERC_H, "entry": "VerifClockReuse", "tiers": QT, "templates": ["b_clock.grl"],
+                         "require_reach": ["tierB:clock-second-call", "tierB:clock-stamped-in-second-call"], "compare_events": False,
+                         "bounds": "two Execute calls on one instance of template b_clock with time.Now as an arbitrary non-decreasing clock (environment stub): what the second call reads from Now() is not older than the start of that call"})
 
 P["C20"] = {
     "design_ref": "DESIGN.md §8 C20", "assumptions": TIERC_ASSUME + [
@@ -283,6 +286,8 @@ P["C20"] = {
     "outside": "GRL text through the ANTLR lexer/parser and JSON facts / JSON rule TEXT through encoding/json on symbolic bytes (not reachable by this technique, DESIGN §9); mutations that edit more than one field or splice strings; time and memory are bounded symbolically (loop/alloc bounds), not measured",
     "runs": [dict(tierC("VerifC20Field", "tiny", [0, -1], QT, ["c20:load-returned", "c20:field-mutated"], "every 8-byte field of template tiny's stream replaced by symbolic bytes"),
                   extra_label_prefixes=["alloc-bounded:"], replay_each_in_own_process=True, compare_events=True),
+             dict(tierC("VerifC20Splice", "tiny", [], QT, ["c20:splice-load-returned", "c20:id-spliced"], "every id-sized string of template tiny's stream replaced, one at a time, by the id of the node being read (a node naming itself as its child): the loader terminates within the budget"),
+                  replay_each_in_own_process=True),
              dict(salienceK(QT), name="salience-literal"),
              {"name": "c18-malformed", "pkgdir": "pkg", "harness": [["pkg", "harness/pkg"]], "entry": "VerifC18Malformed", "tiers": QT, "require_reach": ["c18:malformed-case"], "bounds": "24 JSON rule shapes through pkg.ParseRule"},
              {"name": "json-rule-text", "pkgdir": "pkg", "harness": [["pkg", "harness/pkg"]], "entry": "VerifC20JSONText", "tiers": QT, "require_reach": ["c20:json-text"],
